@@ -25,7 +25,11 @@ EXPLANATION = (
     "MIN_PAYLOAD_SIZE > 0, MIN_PAYLOAD_SIZE * MAX_FRAMES >= MAX_PACKET_SIZE and MAX_PACKET_SIZE <= u16::MAX, and the "
     "assembly buffer / mask array types have exactly those lengths. "
     "(EFFECT) no heap-growing or allocating call (Vec/String/Box/VecDeque growth, to_vec, collect, format!) is "
-    "reachable from Defragmenter::recv in the crate: reassembly memory is fixed at construction."
+    "reachable from Defragmenter::recv in the crate: reassembly memory is fixed at construction. "
+    "(RESET) slot reuse: every DefragQueue field that ingest_frame can read before writing it within one call (must-write "
+    "dataflow over its CFG) is reset by DefragQueue::init on every path, or is only looked at behind the Some edge of a reset "
+    "field with which it is always stored together — no decision about a packet depends on what the previous packet left in "
+    "the slot (the byte buffer itself excepted: see not decided)."
 )
 RESIDUAL = [
     "integrity, at-most-once and completeness of reassembly over frame histories (values): in particular the "
@@ -236,8 +240,206 @@ def mtu_rule(F, R):
         R.violation("MTU", p + "/construct", "Fragmenter constructed outside new() (%s): mtu not clamped" % p, sp.loc)
 
 
+def _self_field(pl, aliases):
+    """(field name, full?) if the place is (*self).field[...] (self = local 1 or an alias of *self)"""
+    l, proj = pl[0], pl[1]
+    if l in aliases and len(proj) >= 2 and proj[0] == "*" and isinstance(proj[1], list) and proj[1][0] == "f":
+        return proj[1][2], len(proj) == 2
+    return None
+
+
+def _places_in(x, out):
+    """all places ([local, proj]) mentioned in an operand / rvalue JSON fragment"""
+    if isinstance(x, list):
+        if len(x) == 2 and x[0] in ("c", "m") and isinstance(x[1], list) and len(x[1]) == 2 and isinstance(x[1][0], int):
+            out.append(x[1])
+            return
+        if len(x) == 3 and x[0] in ("ref", "raw") and isinstance(x[2], list) and len(x[2]) == 2 and isinstance(x[2][0], int):
+            out.append(x[2])
+            return
+        if len(x) == 2 and x[0] == "disc" and isinstance(x[1], list) and len(x[1]) == 2 and isinstance(x[1][0], int):
+            out.append(x[1])
+            return
+        for y in x:
+            _places_in(y, out)
+
+
+def reset_rule(F, R):
+    """RESET: a reassembly slot is reused for packet after packet; every field of DefragQueue that ingest_frame can read
+    before writing it in the same call carries state from the previous packet and must be reset by DefragQueue::init —
+    unless its value is only looked at behind the Some edge of a field that IS reset and with which it is always stored
+    together (last_frame_offset rides on final_packet_size)."""
+    INIT, ING = M + "DefragQueue::init", M + "DefragQueue::ingest_frame"
+    ib, b = F.body(INIT), F.body(ING)
+    if ib is None or b is None:
+        R.anchor_missing(INIT if ib is None else ING)
+        return
+    R.fn(INIT)
+    # fields init stores on every path
+    stores = {}
+    for bi in sorted(ib.live_blocks()):
+        for st in ib.stmts(bi):
+            if st[0] == "=":
+                sf = _self_field(st[1], {1})
+                if sf and sf[1]:
+                    stores.setdefault(sf[0], []).append(bi)
+    rets = [x for x in ib.live_blocks() if ib.term(x)[0] == "ret"]
+    resets = {f for f, bbs in stores.items() if T.must_pass(ib, rets, bbs)[0]}
+    # ingest_frame: must-write dataflow
+    aliases = {1}
+    for l, ds in b.defs.items():
+        for d in ds:
+            if d[0] == "assign" and d[4][0] == "ref" and d[4][2][0] == 1 and d[4][2][1] == ["*"]:
+                aliases.add(l)
+    acc = {}      # block -> ordered list of ("r"|"w", field)
+    for bi in sorted(b.live_blocks()):
+        lst = []
+        for st in b.stmts(bi):
+            if st[0] != "=":
+                continue
+            ps = []
+            _places_in(st[2], ps)
+            for pl in ps:
+                sf = _self_field(pl, aliases)
+                if sf:
+                    lst.append(("r", sf[0]))
+            sf = _self_field(st[1], aliases)
+            if sf:
+                lst.append(("w" if sf[1] else "r", sf[0]))
+        t = b.term(bi)
+        ps = []
+        _places_in(t[1:-1], ps)
+        for pl in ps:
+            sf = _self_field(pl, aliases)
+            if sf:
+                lst.append(("r", sf[0]))
+        acc[bi] = lst
+    allf = {f for l in acc.values() for (_, f) in l}
+    order = sorted(b.live_blocks())
+    win = {bi: set(allf) for bi in order}
+    win[0] = set()
+    changed = True
+    while changed:
+        changed = False
+        for bi in order:
+            ps = [p for p in b.pred[bi] if p in win]
+            if bi != 0 and ps:
+                new = set.intersection(*[win[p] | {f for (k, f) in acc[p] if k == "w"} for p in ps])
+                if new != win[bi]:
+                    win[bi] = new
+                    changed = True
+    rbw = {}
+    for bi in order:
+        w = set(win[bi])
+        for (k, f) in acc[bi]:
+            if k == "r" and f not in w:
+                rbw.setdefault(f, bi)
+            elif k == "w":
+                w.add(f)
+    R.extra["reset"] = {"init_resets": sorted(resets), "read_before_written_in_ingest_frame": sorted(rbw)}
+    R.floor("RESET", len(rbw), 4, "DefragQueue fields ingest_frame reads before writing")
+    for f in sorted(rbw):
+        if f == "assembly_buffer":
+            # the byte buffer is only read to emit [..final_packet_size] after the mask says every frame arrived; its reuse
+            # without clearing is the value-coverage question listed under 'not decided'
+            continue
+        if f in resets:
+            R.ob("RESET", "init resets %s" % f, True, True)
+            continue
+        ok, why = _rides_on_reset_field(b, f, resets, aliases)
+        R.ob("RESET", "%s is not reset by init: %s" % (f, why), ok, True, {"rule": "RESET", "field": f, "exemption": why, "holds": ok})
+        if not ok:
+            R.violation("RESET", ING + "/" + f, "DefragQueue.%s survives slot reuse: ingest_frame reads it before writing it and DefragQueue::init does not "
+                        "reset it (%s): state of the previous packet in the slot decides about the next one" % (f, why), F.loc(INIT))
+
+
+def _rides_on_reset_field(b, f, resets, aliases):
+    """f is only read into a tuple next to a reset field y, its payload is used only behind the Some edge of y's slot, and
+    every block that stores into y also stores f"""
+    tuples = []
+    other_reads = 0
+    for bi in sorted(b.live_blocks()):
+        for st in b.stmts(bi):
+            if st[0] != "=":
+                continue
+            ps = []
+            _places_in(st[2], ps)
+            mine = [pl for pl in ps if (_self_field(pl, aliases) or (None,))[0] == f]
+            if not mine:
+                continue
+            # direct copy into a temp that ends up in a tuple aggregate?
+            tl = st[1][0]
+            used_in_tuple = None
+            for bj in sorted(b.live_blocks()):
+                for st2 in b.stmts(bj):
+                    if st2[0] == "=" and st2[2][0] == "agg" and st2[2][1][0] == "tuple":
+                        for i, o in enumerate(st2[2][2]):
+                            pl = FX.op_place(o)
+                            if pl is not None and pl[0] == tl and not pl[1]:
+                                used_in_tuple = (st2[1][0], i, st2[2][2], bj)
+            if used_in_tuple and st[2][0] == "use" and not st[1][1]:
+                tuples.append(used_in_tuple)
+            else:
+                other_reads += 1
+        t = b.term(bi)
+        ps = []
+        _places_in(t[1:-1], ps)
+        if any((_self_field(pl, aliases) or (None,))[0] == f for pl in ps):
+            other_reads += 1
+    if other_reads or not tuples:
+        return False, "it is read directly (%d site(s)), not only next to a reset field" % other_reads
+    for (tl, i_f, ops, bj) in tuples:
+        ys = []
+        for i, o in enumerate(ops):
+            pl = FX.op_place(o)
+            if pl is None or i == i_f:
+                continue
+            for d in b.defs.get(pl[0], ()):
+                if d[0] == "assign" and d[4][0] == "use":
+                    spl = FX.op_place(d[4][1])
+                    sf = _self_field(spl, aliases) if spl else None
+                    if sf and sf[0] in resets:
+                        ys.append((i, sf[0]))
+        if not ys:
+            return False, "no reset field sits next to it"
+        # uses of the f slot's payload
+        uses = []
+        for bk in sorted(b.live_blocks()):
+            for st in b.stmts(bk):
+                ps = []
+                if st[0] == "=":
+                    _places_in(st[2], ps)
+                for pl in ps:
+                    if pl[0] == tl and pl[1] and isinstance(pl[1][0], list) and pl[1][0][0] == "f" and pl[1][0][1] == i_f and len(pl[1]) > 1:
+                        uses.append(bk)
+        good_y = None
+        for (i_y, y) in ys:
+            def pred(tk, o, g, i_y=i_y):
+                t = b.term(g)
+                pl = FX.op_place(t[1])
+                if pl is None:
+                    return False
+                for d in b.defs.get(pl[0], ()):
+                    if d[0] == "assign" and d[4][0] == "disc":
+                        dp = d[4][1]
+                        if dp[0] == tl and len(dp[1]) == 1 and isinstance(dp[1][0], list) and dp[1][0][1] == i_y:
+                            return True
+                return False
+            if all(T.guarded_by(b, u, pred, [1])[0] for u in uses):
+                # co-store: blocks storing y also store f
+                ysto = [bk for bk in b.live_blocks() for st in b.stmts(bk) if st[0] == "=" and (_self_field(st[1], aliases) or (None, 0)) == (y, True)]
+                fsto = {bk for bk in b.live_blocks() for st in b.stmts(bk) if st[0] == "=" and (_self_field(st[1], aliases) or (None, 0)) == (f, True)}
+                if ysto and all(bk in fsto for bk in ysto):
+                    good_y = y
+        if good_y is None:
+            return False, "its value is used outside the Some edge of a reset field stored together with it"
+        return True, "only used behind Some(%s), which init resets and which is always stored together with it" % good_y
+    return False, "unclassified"
+
+
 def run(F, R, tier, cfg):
     PN.FIELD_UB.clear()
+    reset_rule(F, R)
     field_ub_rule(F, R)
     mtu_rule(F, R)
     PN.check_entries(F, R, "C17", ENTRIES, cfg,
